@@ -13,7 +13,11 @@
     the parameter of `load`), `_servers = {}`, `__AddServer` for each, `__init_done.set()`,
     `_OpenInitialChannels()`; the blocked callbacks run afterwards.
   * `AsyncProcessRequest`: while `__open_ar` is not ready the request is linked to it; the links
-    run in order once the subclass has called `_OnOpenComplete`.
+    (`_on_open_done`) run in order once the subclass has called `_OnOpenComplete`; a link forwards its
+    request to `_AsyncProcessRequestImpl` unless the request carries a deadline event
+    (`Deadline.EVENT_KEY`) that has been set meanwhile — such a request is dropped without a word
+    (its caller already has its TimeoutError).  Model: `queued : List (Option Bool)`, one entry per
+    linked request in arrival order: `none` no deadline event, `some b` an event whose value is `b`.
 -/
 namespace Scales.LBBase
 
@@ -64,8 +68,9 @@ structure LB (σ : Type) where
   initDone : Bool := false
   /-- callbacks blocked in `__init_done.wait()`, in arrival order -/
   blocked : List Notif := []
-  /-- requests linked to `__open_ar` -/
-  queued : Nat := 0
+  /-- requests linked to `__open_ar`, oldest first: `none` = no deadline event, `some b` = deadline
+      event present, `b` = it has been set -/
+  queued : List (Option Bool) := []
 
 /-- `Open()` -/
 def LB.start (lb : LB σ) : LB σ := { lb with started := true }
@@ -86,34 +91,49 @@ def LB.load (S : Sub σ ρ) (lb : LB σ) (l : List Nat) : LB σ :=
   let s3 := lb.blocked.foldl (applyNotif S) s2
   { lb with sub := s3, initDone := true, blocked := [] }
 
-/-- `AsyncProcessRequest` -/
-def LB.request (S : Sub σ ρ) (lb : LB σ) : LB σ × Option ρ :=
+/-- `AsyncProcessRequest`; `evt` describes the request's deadline event (see `LB.queued`) -/
+def LB.request (S : Sub σ ρ) (lb : LB σ) (evt : Option Bool) : LB σ × Option ρ :=
   if S.openReady lb.sub then
     let (s, r) := S.request lb.sub
     ({ lb with sub := s }, some r)
-  else ({ lb with queued := lb.queued + 1 }, none)
+  else ({ lb with queued := lb.queued ++ [evt] }, none)
 
-/-- the links of `__open_ar`: `n` queued requests, oldest first -/
-def flush (S : Sub σ ρ) : Nat → σ → σ × List ρ
-  | 0, s => (s, [])
-  | n + 1, s =>
-    let (s1, r) := S.request s
-    let (s2, rs) := flush S n s1
-    (s2, r :: rs)
+/-- the timeout sink's timer fired for the `k`-th queued request: `evt.Set(True)`.  `none` if there
+    is no such request or it carries no deadline event. -/
+def LB.expire (lb : LB σ) (k : Nat) : Option (LB σ) :=
+  match lb.queued[k]? with
+  | some (some _) => some { lb with queued := lb.queued.set k (some true) }
+  | _ => none
+
+/-- is the request still to be forwarded when its link runs? (`not timeout_event or not timeout_event.Get()`) -/
+def live (e : Option Bool) : Bool := e != some true
+
+/-- the links of `__open_ar` (`_on_open_done`), oldest first: a live request is forwarded to
+    `_AsyncProcessRequestImpl` (`some result`), one whose deadline event is set is dropped (`none`) -/
+def flush (S : Sub σ ρ) : List (Option Bool) → σ → σ × List (Option ρ)
+  | [], s => (s, [])
+  | e :: q, s =>
+    if live e then
+      let (s1, r) := S.request s
+      let (s2, rs) := flush S q s1
+      (s2, some r :: rs)
+    else
+      let (s2, rs) := flush S q s
+      (s2, none :: rs)
 
 /-- the hub runs dry after an operation.  If the open result is already set while requests are
     queued (`_OpenInitialChannels` found no member and called `_OnOpenComplete` on the spot), their
     links run before the subclass' deferred continuations; otherwise the continuations run, and if
     that completed the open result the queued requests are served, after which the hub runs dry again -/
-def LB.finish (S : Sub σ ρ) (lb : LB σ) : LB σ × List ρ :=
-  if S.openReady lb.sub = true ∧ 0 < lb.queued then
+def LB.finish (S : Sub σ ρ) (lb : LB σ) : LB σ × List (Option ρ) :=
+  if S.openReady lb.sub = true ∧ lb.queued ≠ [] then
     let (s2, rs) := flush S lb.queued lb.sub
-    ({ lb with sub := S.settle s2, queued := 0 }, rs)
+    ({ lb with sub := S.settle s2, queued := [] }, rs)
   else
     let s1 := S.settle lb.sub
-    if S.openReady s1 = true ∧ 0 < lb.queued then
+    if S.openReady s1 = true ∧ lb.queued ≠ [] then
       let (s2, rs) := flush S lb.queued s1
-      ({ lb with sub := S.settle s2, queued := 0 }, rs)
+      ({ lb with sub := S.settle s2, queued := [] }, rs)
     else ({ lb with sub := s1 }, [])
 
 end Scales.LBBase
